@@ -88,7 +88,7 @@ def physicality(states, tol, psd=True):
 ALPHAS = (0.1, 0.5, 1.5)
 TEMPS = (0.0, 1.0)
 MEMORIES = ("full", "dkmax2", "dkmax2+tau")       # None | dkmax=2 | dkmax=2 with add_correlation_time=inf
-SYSTEMS = ("unitary", "dissipative", "td", "block")
+SYSTEMS = ("unitary", "dissipative", "td", "block", "stiff")
 STATES = ("pure", "mixed", "rankdef")
 MODELS_Q = ("d2x", "d3", "d3deg-u")
 MODELS_T = ("d2z", "d2x", "d2z-u", "d3", "d3deg-u", "d3rot")
@@ -157,6 +157,10 @@ def sys_parts(d, kind):
     return h0, h1, l1, l2, hx, hy
 
 
+def _gam_stiff(t):
+    return 100.0 * np.exp(-t / 0.1)
+
+
 def _gam_td(t):
     return 0.2 + 0.1 * np.sin(t) ** 2
 
@@ -170,6 +174,10 @@ def make_system(d, kind):
     if kind == "td":
         return oq.TimeDependentSystem(lambda t: h0 + np.cos(0.9 * t) * h1, gammas=[_gam_td],
                                       lindblad_operators=[lambda t: l1 + 0.3 * t * l2])
+    if kind == "stiff":
+        # a decay channel that is switched off quickly: rate * dt is 20 in the first step and < 0.1 after three steps;
+        # run with sampled propagators (subdiv_limit=None), see get_params / produce
+        return oq.TimeDependentSystem(lambda t: h0, gammas=[_gam_stiff], lindblad_operators=[lambda t: l1])
     raise ValueError(kind)
 
 
@@ -186,6 +194,9 @@ def make_mf_system(d, kind):
         s1 = oq.TimeDependentSystemWithField(
             lambda t, f: h0 + np.cos(0.9 * t) * h1 + np.real(f) * hx + np.imag(f) * hy, gammas=[_gam_td],
             lindblad_operators=[lambda t: l1 + 0.3 * t * l2])
+    elif kind == "stiff":
+        s1 = oq.TimeDependentSystemWithField(lambda t, f: h0 + np.real(f) * hx + np.imag(f) * hy, gammas=[_gam_stiff],
+                                             lindblad_operators=[lambda t: l1])
     else:
         raise ValueError(kind)
     s2 = oq.TimeDependentSystemWithField(lambda t, f: 0.5 * M.SZ + np.real(f) * M.SX)
@@ -221,13 +232,14 @@ def get_bath(model, sd, alpha, temp):
     return _CACHE[key]
 
 
-def get_params(memory, epsrel, dt):
+def get_params(memory, epsrel, dt, sampled=False):
+    kw = {"subdiv_limit": None} if sampled else {}
     if memory == "full":
-        return oq.TempoParameters(dt=dt, epsrel=epsrel, dkmax=None)
+        return oq.TempoParameters(dt=dt, epsrel=epsrel, dkmax=None, **kw)
     if memory == "dkmax2":
-        return oq.TempoParameters(dt=dt, epsrel=epsrel, dkmax=2)
+        return oq.TempoParameters(dt=dt, epsrel=epsrel, dkmax=2, **kw)
     if memory == "dkmax2+tau":
-        return oq.TempoParameters(dt=dt, epsrel=epsrel, dkmax=2, add_correlation_time=np.inf)
+        return oq.TempoParameters(dt=dt, epsrel=epsrel, dkmax=2, add_correlation_time=np.inf, **kw)
     raise ValueError(memory)
 
 
@@ -285,26 +297,29 @@ def produce(case):
     extras = {}
     if prod == "tempo":
         bath = get_bath(model, sd, alpha, temp)
-        tempo = oq.Tempo(make_system(d, case["system"]), bath, get_params(memory, eps, dt), rho0, 0.0, unique=unique)
+        tempo = oq.Tempo(make_system(d, case["system"]), bath, get_params(memory, eps, dt, case["system"] == "stiff"), rho0,
+                         0.0, unique=unique)
         dyn = tempo.compute(n * dt, progress_type="silent")
         out = [("system", np.array(dyn.states))]
     elif prod in ("pt", "ptfile"):
         pt = get_pt(model, sd, alpha, temp, memory, eps, dt, n, file_backed=(prod == "ptfile"))
-        dyn = oq.compute_dynamics(make_system(d, case["system"]), rho0, process_tensor=pt, progress_type="silent")
+        skw = {"subdiv_limit": None} if case["system"] == "stiff" else {}
+        dyn = oq.compute_dynamics(make_system(d, case["system"]), rho0, process_tensor=pt, progress_type="silent", **skw)
         out = [("system", np.array(dyn.states))]
     elif prod in ("mf", "ptmf"):
         mfs = make_mf_system(d, case["system"])
         if prod == "mf":
             baths = [get_bath(model, sd, alpha, temp), get_bath("d2z", sd, alpha, temp)]
-            mft = oq.MeanFieldTempo(mfs, baths, get_params(memory, eps, dt), [rho0, M.RHO_GEN2.copy()],
+            mft = oq.MeanFieldTempo(mfs, baths, get_params(memory, eps, dt, case["system"] == "stiff"), [rho0, M.RHO_GEN2.copy()],
                                     0.8 + 0.3j, 0.0, unique=unique)
             dyn = mft.compute(n * dt, progress_type="silent")
         else:
             pts = [get_pt(model, sd, alpha, temp, memory, eps, dt, n),
                    get_pt("d2z", sd, alpha, temp, memory, eps, dt, n)]
+            skw = {"subdiv_limit": None} if case["system"] == "stiff" else {}
             dyn = oq.compute_dynamics_with_field(mfs, 0.8 + 0.3j, process_tensor_list=pts,
                                                  initial_state_list=[rho0, M.RHO_GEN2.copy()],
-                                                 progress_type="silent")
+                                                 progress_type="silent", **skw)
         out = [("system0", np.array(dyn.system_dynamics[0].states)),
                ("system1", np.array(dyn.system_dynamics[1].states))]
         extras["field_finite"] = bool(np.isfinite(np.array(dyn.fields)).all())
@@ -407,13 +422,21 @@ def dynamics_groups(tier):
 # layout -> (which sites carry the PT-TEMPO process tensor, number of steps).  Two process tensors cost 15 s per run
 # at 6 steps (0.3 s at 4 steps), one process tensor 0.1-0.6 s at 6 steps.
 TEBD_LAYOUTS = {"edge": ((1, 0, 0), 6), "middle": ((0, 1, 0), 6), "two": ((1, 1), 4)}
+# a long chain of strongly mixed sites: the vectorised chain state has a tiny norm (purity^(L/2)), all Schmidt values
+# are far below one -- truncation thresholds must be relative.  One process tensor in the middle; run only with the
+# loosest epsrel and one memory setting (see tebd_groups)
+TEBD_LAYOUTS_LONG = {"long16": (tuple(1 if i == 8 else 0 for i in range(16)), 4)}
 
 
 def _tebd_run(layout_name, pt, state, system, order, eps, restart_at=None):
     dt = 0.2
-    layout, n = TEBD_LAYOUTS[layout_name]
+    layout, n = {**TEBD_LAYOUTS, **TEBD_LAYOUTS_LONG}[layout_name]
     nsites = len(layout)
-    if state == "pure":
+    if layout_name in TEBD_LAYOUTS_LONG:
+        mix = [0.55 * M.generic_state(2, 2 + i, pure=True) + 0.45 * (np.eye(2) - M.generic_state(2, 2 + i, pure=True))
+               for i in range(nsites)]
+        rhos = [(r + r.conj().T) / 2 for r in mix]
+    elif state == "pure":
         rhos = [M.generic_state(2, 2 + i, pure=True) for i in range(nsites)]
     else:
         rhos = [M.generic_state(2, 2 + i) for i in range(nsites)]
@@ -430,7 +453,8 @@ def _tebd_run(layout_name, pt, state, system, order, eps, restart_at=None):
         chain.add_site_dissipation(1, 0.6 * M.generic_herm(2, 3) + 0.4j * M.generic_herm(2, 4), 0.2)
         chain.add_nn_dissipation(nsites - 2, M.SM + 0.3j * M.SZ, M.SM.conj().T * (0.8 - 0.2j), 0.25)
     prm = oq.PtTebdParameters(dt=dt, order=order, epsrel=eps)
-    sites = list(range(nsites)) + list(itertools.combinations(range(nsites), 2))
+    sites = list(range(nsites)) + (list(itertools.combinations(range(nsites), 2)) if nsites <= 4 else
+                                   [(i, i + 1) for i in range(0, nsites - 1, 5)])
     # trace-preserving, completely positive control operations that are neither unital nor symmetric as superoperators:
     # a reset to |0><0| (pre-measurement) and an amplitude damping (post-measurement); norm and traces must stay one
     cc = oq.ChainControl([2] * nsites)
@@ -466,7 +490,7 @@ def free_tebd_states(layout_name, state, system, order):
 def tebd_case(case):
     alpha, temp, memory, eps, state, system, order = (case[k] for k in ("alpha", "T", "memory", "epsrel", "state",
                                                                          "system", "order"))
-    layout, n = TEBD_LAYOUTS[case["layout"]]
+    layout, n = {**TEBD_LAYOUTS, **TEBD_LAYOUTS_LONG}[case["layout"]]
     tol = C_TOL * eps * n
     res = {"tr": 0.0, "he": 0.0, "lm": np.inf, "norm": 0.0, "viol": [], "n_states": 0, "move": 0.0, "tr_vs_norm": 0.0}
     try:
@@ -553,7 +577,9 @@ def tebd_groups(tier):
     orders = (2, 1) if tier == "thorough" else (2,)
     inner = [(lay, s, y, o) for lay in TEBD_LAYOUTS for s in ("pure", "mixed") for y in ("unitary", "dissipative")
              for o in orders]
-    return [(a, t, m, e, inner) for a, t, m, e in itertools.product(ALPHAS, TEMPS, MEMORIES, EPS)]
+    groups = [(a, t, m, e, inner) for a, t, m, e in itertools.product(ALPHAS, TEMPS, MEMORIES, EPS)]
+    groups.append((ALPHAS[0], TEMPS[1], "full", max(EPS), [("long16", "mixed", y, 2) for y in ("unitary", "dissipative")]))
+    return groups
 
 
 # --------------------------------------------------------------------------------------------------------------
@@ -731,7 +757,7 @@ def run(tier, seed):
             account(case, r, classify(case), steps_of(case["model"]))
     for grp in tres:
         for case, r in grp:
-            account(case, r, tebd_classify(case), TEBD_LAYOUTS[case["layout"]][1])
+            account(case, r, tebd_classify(case), {**TEBD_LAYOUTS, **TEBD_LAYOUTS_LONG}[case["layout"]][1])
     for case, r in bres:
         account(case, r, gibbs_classify(case), case["n_steps"])
 
